@@ -116,7 +116,7 @@ BOUNDS_DOC = {
     "thorough": "env: the full product of every request axis (77 760 requests) on each of the 4 direct seams; "
                 "app/body as quick plus L in {1,65536}; flow and e2e as quick",
 }
-BUDGET = {"quick": 55, "thorough": 1100}
+BUDGET = {"quick": 300, "thorough": 1100}
 
 WATCHDOG_S = 60.0
 # opt-in (not part of the check): read PEP 3333's "actual body data" literally - see x_c17_ref.Expected.no_head
